@@ -488,14 +488,18 @@ def _r19_2(prog: Program, res: Result) -> None:
     need = {"PYTHON_KEYWORDS": "keywords", "BUILTIN_FUNCTIONS": "builtins", "get_imported_names": "imported names"}
     for m, q, extra in (("fixes", "align_variable_names_with_convention", {"get_defined_names": "defined names"}), ("fixes", "_fix_variable_names", {})):
         fn = prog.func(m, q)
-        # the blacklist is the collection the NEW names are tested against: `X.isdisjoint(substitutes)` / `substitute in X`
+        # the blacklist is a collection that new names are tested against (`X.isdisjoint(names)` / `name in X`) and that
+        # is made of tables of forbidden names - found by what it contains, not by what anything is called
         tests = []
         for n in walk_own(fn.node):
-            if isinstance(n, ast.Call) and isinstance(n.func, ast.Attribute) and n.func.attr == "isdisjoint" and n.args and "substitute" in norm(n.args[0]):
-                tests.append((n, n.func.value))
-            if isinstance(n, ast.Compare) and len(n.ops) == 1 and isinstance(n.ops[0], (ast.In, ast.NotIn)) and "substitute" in norm(n.left) \
+            coll = None
+            if isinstance(n, ast.Call) and isinstance(n.func, ast.Attribute) and n.func.attr == "isdisjoint" and n.args:
+                coll = n.func.value
+            elif isinstance(n, ast.Compare) and len(n.ops) == 1 and isinstance(n.ops[0], (ast.In, ast.NotIn)) \
                     and not isinstance(n.comparators[0], (ast.Tuple, ast.List, ast.Set, ast.Constant)):
-                tests.append((n, n.comparators[0]))
+                coll = n.comparators[0]
+            if coll is not None and any(key in _expand(prog, fn, coll) for key in need):
+                tests.append((n, coll))
         if not tests:
             res.bad("R19.2", fn.loc(), fn.fq, "blacklist applied", "new names are not tested against any collection of forbidden names")
             continue
